@@ -764,3 +764,156 @@ func truncate(s string, n int) string {
 	}
 	return s
 }
+
+// ---- crash-restart scenario: the process stops at a disk boundary of a write-back, a new
+// process (a fresh FileConfig on the same disk) must find a complete file and must be
+// able to write back again ----
+
+type c18Crash struct {
+	Initial   string            `json:"initial"`
+	KV1       map[string]string `json:"kv1"`
+	StopAt    int               `json:"stop_at_boundary"`
+	Bounds    []string          `json:"boundaries_seen"`
+	AtStop    string            `json:"file_at_stop"`
+	Others    []string          `json:"other_files_at_stop"`
+	KV2       map[string]string `json:"kv2"`
+	Final     string            `json:"final_file"`
+	Got       map[string]string `json:"got"`
+	Stopped   bool              `json:"stopped"`
+	Completed bool              `json:"completed_before_stop"`
+	model     []c18Item
+}
+
+func init() {
+	register(&Scenario{Prop: "C18", Name: "crash", MaxSteps: 600000, Body: c18CrashBody, After: c18CrashAfter, RacePkgs: []string{"config/conffile", "config"}, Quanta: []int64{2000, 20000, 100000}})
+	probesFor["C18"] = append(probesFor["C18"], "process_stopped_mid_writeback", "restart_writeback_done")
+}
+
+func c18CrashBody(rc *RunCtx) {
+	d := &c18Crash{KV1: map[string]string{}, KV2: map[string]string{}, Got: map[string]string{}}
+	rc.Data = d
+	disk := simos.Reset()
+	disk.MkdirAllRaw("/wh")
+	path := "/wh/whatap.conf"
+	items := c18GenFile(nil)
+	d.model = items
+	d.Initial = c18Render(items)
+	disk.WriteRaw(path, []byte(d.Initial))
+	n := 1 + simrt.Choose(3)
+	for i := 0; i < n; i++ {
+		d.KV1[c18Keys[simrt.Choose(len(c18Keys))]] = c18Value()
+	}
+	d.StopAt = 1 + simrt.ChooseF(8)
+	var writer *simrt.Task
+	seen := 0
+	disk.OnBoundary = func(kind, p string) {
+		if simrt.Cur() != writer || d.Stopped {
+			return
+		}
+		seen++
+		c18CrashNote(d, kind+" "+p)
+		if seen == d.StopAt {
+			d.Stopped = true
+			b, _ := disk.ReadRaw(path)
+			d.AtStop = string(b)
+			for _, f := range disk.ListRaw("/wh") {
+				if f != "whatap.conf" {
+					d.Others = append(d.Others, f)
+				}
+			}
+			simrt.Fault("process_stop")
+			simrt.Probe("process_stopped_mid_writeback")
+			simrt.Freeze() // never returns: no deferred code of the write-back runs
+		}
+	}
+	cfg := conffile.GetConfig(conffile.WithHomePath("/wh"))
+	writer = simrt.GoNamed("writer", func() {
+		cfg.SetValues(&d.KV1)
+		d.Completed = true
+	})
+	simrt.Settle(int64(2 * time.Second))
+	// "restart": the old process is gone (its instance is destroyed), a new one starts on the same disk
+	cfg.Destroy()
+	disk.OnBoundary = nil
+	simrt.Settle(int64(4 * time.Second))
+	cfg2 := conffile.GetConfig(conffile.WithHomePath("/wh"))
+	simrt.OnReset(func() { cfg2.Destroy() })
+	m := 1 + simrt.Choose(2)
+	for i := 0; i < m; i++ {
+		d.KV2[c18Keys[simrt.Choose(len(c18Keys))]] = "r" + strconv.Itoa(simrt.Choose(100000))
+	}
+	cfg2.SetValues(&d.KV2)
+	simrt.Probe("restart_writeback_done")
+	simrt.Settle(int64(10500 * time.Millisecond))
+	b, _ := disk.ReadRaw(path)
+	d.Final = string(b)
+	for k := range d.KV2 {
+		d.Got[k] = cfg2.GetValue(k)
+	}
+}
+
+//go:norace
+func c18CrashNote(d *c18Crash, s string) { d.Bounds = append(d.Bounds, s) }
+
+func c18CrashAfter(rc *RunCtx, res *simrt.Result) {
+	d := rc.Data.(*c18Crash)
+	rc.Sample = d
+	var h uint64 = 1469598103934665603
+	for _, c := range []byte(d.AtStop + "|" + d.Final + "|" + strings.Join(d.Bounds, ",")) {
+		h = (h ^ uint64(c)) * 1099511628211
+	}
+	rc.OutcomeHash = h
+	viol := func(oracle, msg string) { rc.Violate("C18", oracle, oracle, msg) }
+	if d.Stopped {
+		// the surviving file is the complete old content or a complete new one: every old kv
+		// line still present with old or written value, and parsable line by line
+		if d.AtStop != d.Initial {
+			lines := strings.Split(strings.TrimSuffix(d.AtStop, "\n"), "\n")
+			have := map[string]string{}
+			for _, ln := range lines {
+				if m := reKV.FindStringSubmatch(ln); m != nil {
+					have[m[1]] = strings.Replace(m[2], "\\\\", "\\", -1)
+				}
+			}
+			ok := strings.HasSuffix(d.AtStop, "\n") || d.AtStop == ""
+			for _, it := range d.model {
+				if it.Kind != "kv" {
+					continue
+				}
+				v, present := have[it.Key]
+				if !present || (v != it.Value && v != d.KV1[it.Key]) {
+					ok = false
+				}
+			}
+			for k, v := range d.KV1 {
+				if have[k] != v {
+					ok = false // a new version must be the COMPLETE new content
+				}
+			}
+			if !ok {
+				viol("writeback-not-atomic", fmt.Sprintf("the process stopped at disk boundary #%d (%v) of a write-back %v and left the file holding neither the complete old nor the complete new content: %q (old %q)", d.StopAt, d.Bounds, d.KV1, truncate(d.AtStop, 300), truncate(d.Initial, 300)))
+			}
+		}
+	}
+	// after the restart a write-back must work: written values read back and are in the file
+	for _, k := range sortedKeys(d.KV2) {
+		v := d.KV2[k]
+		if d.Got[k] != strings.TrimSpace(v) {
+			viol("writeback-after-crash", fmt.Sprintf("after a process stop at boundary #%d (%v; leftover files %v) a new process wrote %s=%q but reads back %q; file: %q", d.StopAt, d.Bounds, d.Others, k, v, d.Got[k], truncate(d.Final, 300)))
+			break
+		}
+		if !strings.Contains(d.Final, k+"="+c18Escape(v)+"\n") {
+			viol("writeback-after-crash", fmt.Sprintf("after a process stop at boundary #%d (%v; leftover files %v) a new process wrote %s=%q but the file does not contain it: %q", d.StopAt, d.Bounds, d.Others, k, v, truncate(d.Final, 300)))
+			break
+		}
+	}
+}
+
+func sortedKeys(m map[string]string) []string {
+	var ks []string
+	for k := range m {
+		ks = append(ks, k)
+	}
+	sort.Strings(ks)
+	return ks
+}
